@@ -334,6 +334,36 @@ class SymBytes:
         if attr in ("startswith", "endswith"):
             fn = getattr(self, attr)
             return Native(lambda args, kwargs: fn(*args))
+        if attr in ("lstrip", "rstrip", "strip"):
+            def strip(args, kwargs, attr=attr):
+                chars = set(args[0]) if args and isinstance(args[0], (bytes, bytearray)) else set(b" \t\n\r\x0b\x0c")
+                cells = list(self.cells)
+                if attr in ("lstrip", "strip"):
+                    while cells and isinstance(cells[0], int) and cells[0] in chars:
+                        cells.pop(0)
+                    if cells and isinstance(cells[0], Blob):
+                        cells[0] = Blob(cells[0].name + "~lstripped")  # may have lost leading payload bytes
+                    elif cells and not isinstance(cells[0], int):
+                        raise Undecided("strip reaching a symbolic byte")
+                if attr in ("rstrip", "strip"):
+                    while cells and isinstance(cells[-1], int) and cells[-1] in chars:
+                        cells.pop()
+                    if cells and isinstance(cells[-1], Blob):
+                        cells[-1] = Blob(cells[-1].name + "~rstripped")
+                    elif cells and not isinstance(cells[-1], int):
+                        raise Undecided("strip reaching a symbolic byte")
+                return SymBytes(cells)
+            return Native(strip)
+        if attr in ("removeprefix", "removesuffix"):
+            def rem(args, kwargs, attr=attr):
+                p_ = list(args[0])
+                cells = list(self.cells)
+                if attr == "removeprefix" and cells[:len(p_)] == p_:
+                    return SymBytes(cells[len(p_):])
+                if attr == "removesuffix" and p_ and cells[-len(p_):] == p_:
+                    return SymBytes(cells[:-len(p_)])
+                return SymBytes(cells)
+            return Native(rem)
         if attr == "decode":
             c = self.concrete()
             if c is None:
